@@ -88,6 +88,13 @@ func fieldReaders(c *Ctx) map[*types.Var]map[*ssa.Function]bool {
 
 func ruleDeadFlagStore(c *Ctx, r *R) {
 	readers := fieldReaders(c)
+	type exitStore struct {
+		fn   *ssa.Function
+		f    *types.Var
+		st   *ssa.Store
+		base string
+	}
+	var exitLive []exitStore // stores whose value is observable only because the function returns
 	for _, fn := range c.AllSrcFuncs("parser") {
 		ord := map[string]int{}
 		for _, b := range fn.Blocks {
@@ -116,55 +123,10 @@ func ruleDeadFlagStore(c *Ctx, r *R) {
 				ord[base]++
 				key := fmt.Sprintf("%s#%d", base, ord[base])
 				// forward search: is there a path on which the field is read / the function exits before being overwritten?
-				observable := false
-				seen := map[*ssa.BasicBlock]bool{}
-				var walk func(bb *ssa.BasicBlock, start int)
-				walk = func(bb *ssa.BasicBlock, start int) {
-					if observable {
-						return
-					}
-					for i := start; i < len(bb.Instrs); i++ {
-						switch x := bb.Instrs[i].(type) {
-						case *ssa.Store:
-							if n2, f2 := fieldOfAddr(x.Addr); n2 != nil && f2 == f && sameAddr(x.Addr.(*ssa.FieldAddr).X, fa.X) {
-								return // overwritten on this path
-							}
-						case *ssa.UnOp:
-							if n2, f2 := fieldOfAddr(x.X); n2 != nil && f2 == f {
-								observable = true
-								return
-							}
-						case *ssa.Return, *ssa.Panic:
-							observable = true
-							return
-						case ssa.CallInstruction:
-							callee := x.Common().StaticCallee()
-							if callee == nil {
-								if _, isBuiltin := x.Common().Value.(*ssa.Builtin); !isBuiltin {
-									observable = true
-									return
-								}
-							} else if readers[f][callee] {
-								observable = true
-								return
-							}
-							if _, isDefer := x.(*ssa.Defer); isDefer {
-								observable = true // deferred code runs later; be conservative
-								return
-							}
-						case *ssa.MakeClosure:
-							observable = true
-							return
-						}
-					}
-					for _, s := range bb.Succs {
-						if !seen[s] {
-							seen[s] = true
-							walk(s, 0)
-						}
-					}
+				observable, byRead := observableAfter(readers, f, fa.X, b, idx+1)
+				if observable && !byRead {
+					exitLive = append(exitLive, exitStore{fn, f, st, base})
 				}
-				walk(b, idx+1)
 				if why, ok := deadStoreReviewed[base]; ok && !observable {
 					r.ok("reviewed:"+key, c.Pos(instrPos(ins)), why)
 					continue
@@ -173,6 +135,118 @@ func ruleDeadFlagStore(c *Ctx, r *R) {
 			}
 		}
 	}
+	// a store that is live only through the return: at every place the function is called, the caller must not overwrite
+	// the field before anything reads it - otherwise the callee's effect is lost at that call site
+	seenSite := map[string]bool{}
+	for _, es := range exitLive {
+		// only stores that execute on every path of the callee up to its return are attributed to the call (a flag set
+		// conditionally is a different question)
+		if !es.st.Block().Dominates(lastReturnBlock(es.fn)) && len(returnBlocks(es.fn)) > 0 {
+			dominatesAll := true
+			for _, rb := range returnBlocks(es.fn) {
+				if !es.st.Block().Dominates(rb) {
+					dominatesAll = false
+				}
+			}
+			if !dominatesAll {
+				continue
+			}
+		}
+		for _, caller := range c.AllSrcFuncs("parser") {
+			n := 0
+			for _, b := range caller.Blocks {
+				for idx, ins := range b.Instrs {
+					call, ok := ins.(*ssa.Call)
+					if !ok || call.Call.StaticCallee() != es.fn || len(call.Call.Args) == 0 {
+						continue
+					}
+					n++
+					key := fmt.Sprintf("call:%s->%s:%s#%d", ssaFuncName(caller), ssaFuncName(es.fn), es.f.Name(), n)
+					if seenSite[key] {
+						continue
+					}
+					seenSite[key] = true
+					obs, _ := observableAfter(readers, es.f, call.Call.Args[0], b, idx+1)
+					r.check(obs, key, c.Pos(instrPos(call)), "the field set by the callee can be observed after the call", fmt.Sprintf("%s sets %s on every path and returns, but after this call %s overwrites the field on every path before anything reads it: what the callee set is lost at this call site (while other callers keep it) - for the scanner's semicolon / newline flags that changes automatic semicolon insertion for exactly the token form scanned here", ssaFuncName(es.fn), es.f.Name(), ssaFuncName(caller)))
+				}
+			}
+		}
+	}
+}
+
+func returnBlocks(fn *ssa.Function) []*ssa.BasicBlock {
+	var out []*ssa.BasicBlock
+	for _, b := range fn.Blocks {
+		if len(b.Instrs) > 0 {
+			if _, ok := b.Instrs[len(b.Instrs)-1].(*ssa.Return); ok {
+				out = append(out, b)
+			}
+		}
+	}
+	return out
+}
+
+func lastReturnBlock(fn *ssa.Function) *ssa.BasicBlock {
+	rb := returnBlocks(fn)
+	if len(rb) == 0 {
+		return fn.Blocks[0]
+	}
+	return rb[len(rb)-1]
+}
+
+// observableAfter: starting at instruction index start of block b, is there a path on which field f (of the struct
+// base points to) is read, or the function exits, before f is stored again? byRead reports whether a read (rather than
+// an exit) is what makes it observable.
+func observableAfter(readers map[*types.Var]map[*ssa.Function]bool, f *types.Var, base ssa.Value, b *ssa.BasicBlock, start int) (observable, byRead bool) {
+	seen := map[*ssa.BasicBlock]bool{}
+	var walk func(bb *ssa.BasicBlock, start int)
+	walk = func(bb *ssa.BasicBlock, start int) {
+		if byRead {
+			return
+		}
+		for i := start; i < len(bb.Instrs); i++ {
+			switch x := bb.Instrs[i].(type) {
+			case *ssa.Store:
+				if n2, f2 := fieldOfAddr(x.Addr); n2 != nil && f2 == f && sameAddr(x.Addr.(*ssa.FieldAddr).X, base) {
+					return // overwritten on this path
+				}
+			case *ssa.UnOp:
+				if n2, f2 := fieldOfAddr(x.X); n2 != nil && f2 == f {
+					observable, byRead = true, true
+					return
+				}
+			case *ssa.Return, *ssa.Panic:
+				observable = true
+				return
+			case ssa.CallInstruction:
+				callee := x.Common().StaticCallee()
+				if callee == nil {
+					if _, isBuiltin := x.Common().Value.(*ssa.Builtin); !isBuiltin {
+						observable, byRead = true, true
+						return
+					}
+				} else if readers[f][callee] {
+					observable, byRead = true, true
+					return
+				}
+				if _, isDefer := x.(*ssa.Defer); isDefer {
+					observable, byRead = true, true // deferred code runs later; be conservative
+					return
+				}
+			case *ssa.MakeClosure:
+				observable, byRead = true, true
+				return
+			}
+		}
+		for _, s := range bb.Succs {
+			if !seen[s] {
+				seen[s] = true
+				walk(s, 0)
+			}
+		}
+	}
+	walk(b, start)
+	return observable, byRead
 }
 
 // Reviewed redundant stores (behaviour-neutral): key without ordinal.
